@@ -13,12 +13,13 @@ Init == \E p \in ParamNames, q \in PartyNames, e \in EnvNames, usedParam \in BOO
            \*  two_withdrawals: two chain-specific blocks of one kind, each with names of its own; mixed_blocks: blocks of three kinds,
            \* not in alphabetical order)
            extra \in {"none", "unused_param", "case_twin_param", "second_party", "policy_ctor", "two_withdrawals", "mixed_blocks", "case_twin_tx",
-                      "long_script", "long_policy_script", "long_datum"} :
+                      "long_script", "long_policy_script", "long_datum", "burn_only_param", "signer_only_param"} :
           c = [param |-> p, party |-> q, env |-> e, usedParam |-> usedParam, usedEnv |-> usedEnv, extra |-> extra,
                \* names the body of the transaction uses (party always; the case twin is used when present)
                nUsed |-> 1 + (IF usedParam THEN 1 ELSE 0) + (IF usedEnv THEN 1 ELSE 0)
                            + (IF extra = "case_twin_param" THEN 1 ELSE 0) + (IF extra = "second_party" THEN 1 ELSE 0)
-                           + (IF extra \in {"two_withdrawals", "mixed_blocks"} THEN 2 ELSE 0)]
+                           + (IF extra \in {"two_withdrawals", "mixed_blocks"} THEN 2 ELSE 0)
+                           + (IF extra \in {"burn_only_param", "signer_only_param"} THEN 1 ELSE 0)]
 Next == UNCHANGED c
 EmitCase == PrintT(<<"CASE", ToJson(c)>>)
 =============================================================================
